@@ -422,25 +422,36 @@ def oracle(case, obs):
     data = bytes.fromhex(hexdata)
     closing = closing == "T"
     reqs = case["reqs"]
-    # how many requests must have been answered: all up to and including the first non-persistent one
-    n = 0
-    for r in reqs:
-        n += 1
-        if not (r["v11"] and not r["close"]):
-            break
-    if len(outcomes) != n or any(len(o) != len(_flat_ops(r)) for o, r in zip(outcomes, reqs)):
-        return Failure(case, f"{len(outcomes)} requests processed, expected {n}", "requests-processed")
-    exps = []
-    for r, o in zip(reqs[:n], outcomes):
+    # how many requests must have been answered: all up to and including the first one after which the connection does
+    # not stay open - the request did not allow it (HTTP/1.0, "Connection: close"), or the head the server wrote said
+    # "Connection: close" (RFC 9112 section 9.6: whoever put it there, the sender MUST then close)
+    if any(len(o) != len(_flat_ops(r)) for o, r in zip(outcomes, reqs)) or len(outcomes) > len(reqs) or not outcomes:
+        return Failure(case, "malformed outcome list", "requests-processed")
+    exps, n, said_close = [], 0, False
+    for r, o in zip(reqs, outcomes):
         e = _expected(r, o)
         if isinstance(e, tuple):
             return Failure(case, e[1], e[0])
         exps.append(e)
+        n += 1
+        said_close = any(b"close" in [t.strip(b" \t").lower() for t in _sanitised(v).split(b",")]
+                         for v in e["headers"].get(b"connection", []))
+        if not (r["v11"] and not r["close"]) or said_close:
+            break
+    if len(outcomes) != n:
+        why = ("the head of response %d said Connection: close (set by the application) but the server went on to answer "
+               "the next request on the same connection" % (n - 1)) if said_close and reqs[n - 1]["v11"] and not reqs[n - 1]["close"] \
+            else f"{len(outcomes)} requests processed, expected {n}"
+        return Failure(case, why, "application-connection-close-not-honoured" if "said Connection" in why else "requests-processed")
+    if n < len(reqs) and (reqs[n - 1]["v11"] and not reqs[n - 1]["close"]) and not said_close:
+        return Failure(case, f"{n} requests processed, expected more", "requests-processed")
     if not all(_domain(r, e) for r, e in zip(reqs, exps)):
         return None
-    persistent_last = reqs[n - 1]["v11"] and not reqs[n - 1]["close"]
+    persistent_last = reqs[n - 1]["v11"] and not reqs[n - 1]["close"] and not said_close
     if closing != (not persistent_last):
-        return Failure(case, f"transport closing={closing} but last request persistent={persistent_last}", "close-flag")
+        tag = "application-connection-close-not-honoured" if said_close and not closing else "close-flag"
+        return Failure(case, f"transport closing={closing} but the connection should {'stay open' if persistent_last else 'be closed'} "
+                             f"after response {n - 1}", tag)
 
     cookies_set = [e["cookies"] for e in exps]
 
@@ -503,7 +514,6 @@ def oracle(case, obs):
     # did not itself announce "Connection: close" on a connection the server keeps open: h11 would stop there)
     usable = all(_h11_ok(_sanitised(v)) for e in exps for vs in e["headers"].values() for v in vs) and \
         all(e["reason"] is None or _h11_ok(_sanitised(e["reason"])) for e in exps) and \
-        not any(b"close" in v.lower() for e in exps[:n - 1] for v in e["headers"].get(b"connection", [])) and \
         all(re.fullmatch(rb"[0-9]+", v) if k.lower() == b"content-length" else
             (v.lower() == b"chunked") if k.lower() == b"transfer-encoding" else True
             for g in got for k, v in g["headers"])
@@ -518,6 +528,10 @@ def oracle(case, obs):
             return Failure(case, f"h11 rejects the emitted bytes: {e}", "h11-rejects")
         for i, (g, (st, rs, hs, body)) in enumerate(zip(got, hp)):
             mine = [(k.lower(), v) for k, v in g["headers"]]
+            cls = [v for k, v in mine if k == b"content-length"]
+            if len(cls) > 1 and len(set(cls)) == 1:      # h11 folds equal Content-Length values into one
+                first = [i for i, (k, _) in enumerate(mine) if k == b"content-length"][0]
+                mine = [kv for i, kv in enumerate(mine) if kv[0] != b"content-length" or i == first]
             if st != g["status"] or mine != hs or body != g["body"] or rs.strip(b" \t") != g["reason"].strip(b" \t"):
                 return Failure(case, f"response {i}: h11 and the reference parser disagree: {(st, rs, hs, body[:40])}",
                                "h11-disagrees")
@@ -697,6 +711,8 @@ def _request(rng, tier, last):
         nm = rng.choice([b"content-length", b"Content-Length", b"transfer-encoding", b"Transfer-Encoding", b"connection", b"Connection"])
         tnm = {"s": list(nm)} if rng.random() < 0.3 else {"b": nm.hex()}
         extra = rng.choice([["set", tnm, []], ["rm", tnm]])
+        if nm.lower() == b"connection" and rng.random() < 0.6:
+            extra = ["set", tnm, [{"b": rng.choice([b"close", b"Close", b"keep-alive", b"upgrade, close", b"closed"]).hex()}]]
         ops.insert(rng.randrange(len(ops) + 1) if rng.random() < 0.5 else len(ops), extra)
     elif r2 < 0.18:
         # the application installs a fresh Headers object, possibly with empty value lists
@@ -776,6 +792,16 @@ def gen(rng, tier):
                     cases.append({"split": False, "reqs": [
                         {"v11": v11, "head": head, "close": False, "ops": route + [["write", w.hex()] for w in writes]},
                         {"v11": True, "head": False, "close": True, "ops": [["write", b"next".hex()]]}]})
+    # systematic: the application itself announces "Connection: close" (or something that only looks like it)
+    conn = {"b": b"connection".hex()}
+    for val in (b"close", b"Close", b" close ", b"keep-alive, close", b"close,foo", b"CLOSE\t", b"closed", b"keep-alive", b"x-close", b"close;q=1"):
+        for route in ([["set", conn, [{"b": val.hex()}]]], [["add", {"s": list(b"Connection")}, {"s": list(val)}]],
+                      [["new", [[conn, [{"b": val.hex()}]]]]], [["set", conn, [{"b": b"keep-alive".hex()}, {"b": val.hex()}]]],
+                      [["write", b"x".hex()], ["set", conn, [{"b": val.hex()}]]]):
+            for head in (False, True):
+                cases.append({"split": rng.random() < 0.5, "reqs": [
+                    {"v11": True, "head": head, "close": False, "ops": route + [["write", b"body".hex()]]},
+                    {"v11": True, "head": False, "close": False, "ops": [["write", b"next".hex()]]}]})
     return cases
 
 
@@ -796,6 +822,10 @@ def corpus():
         one([["cookie", {"b": b"k;1".hex()}, {"s": list(b"v\n2")}, dict(a, path={"b": b"/;x\r\nSet-Cookie: evil=1".hex()}),
               True, True, {"b": b"Strict".hex()}], w(b"x")]),
         one([["set", {"b": b"x\r\ny".hex()}, [{"b": b"v".hex()}]], ["set", {"s": [120, 256]}, []], w(b"")]),
+        # the application announces Connection: close on a persistent connection; a second request is pipelined
+        {"split": False, "reqs": [
+            {"v11": True, "head": False, "close": False, "ops": [["set", {"b": b"Connection".hex()}, [{"b": b"close".hex()}]], w(b"bye")]},
+            {"v11": True, "head": False, "close": False, "ops": [w(b"never")]}]},
         {"split": True, "reqs": [
             {"v11": True, "head": True, "close": False, "ops": [w(b"ignored")]},
             {"v11": True, "head": False, "close": False, "ops": [["code", 204, None], w(b"ignored")]},
